@@ -42,7 +42,7 @@ class _Prim(Ty):
 Int = _Prim("Int", z3.IntSort())
 Real = _Prim("Real", z3.RealSort())
 Bool = _Prim("Bool", z3.BoolSort())
-Str = _Prim("Str", StrS)
+Str = _Prim("Str", z3.IntSort())    # strings are opaque values: literals map to distinct integer codes
 NoneT = _Prim("None", None)
 DT = _Prim("DT", z3.RealSort())      # datetime: seconds on the proleptic Gregorian line (naive)
 TD = _Prim("TD", z3.RealSort())      # timedelta: seconds
@@ -238,7 +238,9 @@ _str_consts: dict[str, z3.ExprRef] = {}
 
 def mk_str(s: str):
     if s not in _str_consts:
-        _str_consts[s] = z3.Const("str!" + s, StrS)
+        import hashlib
+        code = int(hashlib.sha1(s.encode()).hexdigest()[:14], 16) + 1000    # distinct literals -> distinct codes
+        _str_consts[s] = z3.IntVal(code)
     return V(Str, [_str_consts[s]])
 
 
